@@ -4016,6 +4016,13 @@ https://gcc.gnu.org/bugzilla/show_bug.cgi?id=47485'''))
             aliasfile = os.path.join(outdir, alias)
             abs_aliasfile = os.path.join(self.environment.get_build_dir(), outdir, alias)
             try:
+                if os.readlink(abs_aliasfile) == to:
+                    # Already up to date, do not touch it.
+                    self.implicit_meson_outs.append(aliasfile)
+                    continue
+            except OSError:
+                pass
+            try:
                 os.remove(abs_aliasfile)
             except Exception:
                 pass
